@@ -51,6 +51,12 @@ def gen_cases(ctx):
             i = rng.randrange(len(s) + 1)
             s = s[:i] + rng.choice("?xz \x00\xff,=N") + s[i:]
         strs.append(s)
+    # the AccessMode predicates and comparisons: every value of the low nine bits and the Invalid marker
+    # against a seeded second operand, plus seeded pairs (also beyond the byte)
+    for m in list(range(512)) + [1048576, 1048576 + 255, 4096 + 128]:
+        cases.append("PR %d %d" % (m, rng.randrange(512)))
+    for _ in range(2000 if quick else 40000):
+        cases.append("PR %d %d" % (rng.choice([rng.randrange(256), rng.randrange(512), rng.randrange(1 << 21)]), rng.randrange(512)))
     curs = [0, 47, 255, 256, 144]
     for s in strs:
         h = hx(s)
@@ -72,7 +78,23 @@ def monitors(cases, t):
         if o and o[0] == "PANIC":
             fails.append(("no-panic", c, "panic in the implementation"))
             continue
-        if w[0] == "RT":
+        if w[0] == "PR":
+            m, x = int(w[1]), int(w[2])
+            bit = lambda v, k: (v >> k) & 1
+            want = [bit(m, 0), bit(m, 1), bit(m, 2), bit(m, 3), bit(m, 4), bit(m, 7) | bit(m, 4) | bit(m, 5), bit(m, 6), bit(m, 7),
+                    bit(m, 7) | bit(m, 4), int(m == 0), int(m == 0x100000), int(m not in (0x100000, 0x100)),
+                    int((255 & m & ~x) != 0), int((255 & m & x) == x),
+                    bit(m, 2) & bit(x, 2), bit(m, 1) & bit(x, 1), bit(m, 7) & bit(x, 7)]
+            names = ["IsJoiner", "IsReader", "IsWriter", "IsPresencer", "IsApprover", "IsSharer", "IsDeleter", "IsOwner", "IsAdmin",
+                     "IsZero", "IsInvalid", "IsDefined", "BetterThan", "BetterEqual", "effective-IsWriter", "effective-IsReader",
+                     "effective-IsOwner"]
+            got = o[1] if len(o) > 1 else ""
+            for i, nm in enumerate(names):
+                if i >= len(got) or int(got[i]) != want[i]:
+                    fails.append(("predicate-" + nm, c, "%s of mode %d (second operand %d) is %s, the permission bits say %d"
+                                  % (nm, m, x, got[i:i + 1] or "?", want[i])))
+                    break
+        elif w[0] == "RT":
             if int(w[1]) < 256 and not (o[2] == w[1] and o[3] == "1"):
                 fails.append(("parse-marshal-roundtrip", c, "canonical text does not parse back to the set"))
         elif w[0] == "DA":
@@ -110,7 +132,7 @@ def neighbours(ctx, case):
                 res.append(" ".join(w[:-1] + [hx(s[:i] + ch + s[i:])]))
             if i < len(s):
                 res.append(" ".join(w[:-1] + [hx(s[:i] + s[i + 1:])]))
-    if w[0] in ("DA", "RT", "M"):
+    if w[0] in ("DA", "RT", "M", "PR"):
         for d in (1, 2, 4, 8, 16, 32, 64, 128):
             res.append(" ".join([w[0]] + [str(int(x) ^ d) for x in w[1:]]))
     return res
